@@ -4,6 +4,8 @@ from hirlib import callee, local_of, peel, peel_refs, place_path, walk
 
 CONVERT = ("quantity::Quantity::convert_to",)
 SELECTORS = ("::smaller_unit",)
+# wrappers around the selector that are accepted once check_zero_aware_selector has verified their shape
+WRAPPED_SELECTORS = set()
 
 
 def let_inits(fn):
@@ -56,6 +58,7 @@ def two_operands(fn):
     return ps[0], ps[1]
 
 
+ZERO_AWARE = set()  # labels whose conversion target comes from a verified zero-aware selector
 FRAMES = {}  # label -> the common representation in which the function compares / combines its operands
 
 
@@ -128,10 +131,12 @@ def check_binary(crate, fn, out, label, expect_symmetric=True, _depth=0):
             else:
                 out.violation(key, cf, cl, "`%s` is converted to an operand-independent unit but `%s` is not" % (operands[r], operands[other]))
         elif tgt == set(operands):
-            sel = any(v.endswith(SELECTORS) for v in via)
+            sel = any(v.endswith(SELECTORS) or v in WRAPPED_SELECTORS for v in via)
             mirror = any(rc == {other} and tg == tgt for (_n, rc, tg, _v) in convs)
             if sel and mirror:
                 FRAMES[label] = "smaller_unit(a.unit, b.unit)"
+                if any(v in WRAPPED_SELECTORS for v in via):
+                    ZERO_AWARE.add(label)
                 out.ok(key, cf, cl, "both operands are converted to the unit chosen by the symmetric selector smaller_unit(a.unit, b.unit)")
             elif not sel:
                 out.violation(key, cf, cl, "the conversion target depends on both operands but not through the symmetric selector `Unit::smaller_unit`")
@@ -144,6 +149,73 @@ def check_binary(crate, fn, out, label, expect_symmetric=True, _depth=0):
             )
         elif tgt == {r}:
             out.advisory(key, cf, cl, "operand converted to its own unit")
+
+
+def check_zero_aware_selector(crate, out, suffix="quantity::Quantity::comparison_unit"):
+    """`comparison_unit(a, b)`: a zero operand (convertible to any unit) never determines the unit, otherwise the
+    symmetric selector decides:  if a.is_zero() { b.unit } else if b.is_zero() { a.unit } else { smaller_unit(a.unit, b.unit) }.
+    Mirror-image zero branches + symmetric selector = a symmetric function of (a, b) up to the both-zero case, where
+    the unit is irrelevant."""
+    fn = crate.find_fn(suffix, required=False)
+    WRAPPED_SELECTORS.clear()
+    if fn is None:
+        return
+    f = crate.file_of(fn)
+    ops = two_operands(fn)
+    if ops is None:
+        out.violation("comparison_unit:shape", f, fn["line"], "comparison_unit does not take two operands")
+        return
+    a, b = ops
+    operands = {a["id"]: a["name"], b["id"]: b["name"]}
+    body = peel(fn["body"])
+    node = peel(body.get("tail")) if body.get("k") == "Block" and body.get("tail") is not None else body
+
+    def unit_of(e):
+        """operand whose `.unit` this expression denotes"""
+        e = peel(e)
+        if e.get("k") == "Block" and e.get("tail") is not None:
+            e = peel(e["tail"])
+        p = place_path(e)
+        if p and p[0] in operands and p[2] == ["unit"]:
+            return p[0]
+        return None
+
+    def zero_test(c):
+        c = peel(c)
+        if c.get("k") == "MethodCall" and c["name"] == "is_zero":
+            return local_of(c["recv"])
+        return None
+
+    ok = False
+    why = "not of the form `if a.is_zero() { &b.unit } else if b.is_zero() { &a.unit } else { a.unit.smaller_unit(&b.unit) }`"
+    if node.get("k") == "If" and node.get("else") is not None:
+        z1 = zero_test(node["cond"])
+        r1 = unit_of(node["then"])
+        e1 = peel(node["else"])
+        if e1.get("k") == "Block" and not e1.get("stmts") and e1.get("tail") is not None:
+            e1 = peel(e1["tail"])
+        if e1.get("k") == "If" and e1.get("else") is not None:
+            z2 = zero_test(e1["cond"])
+            r2 = unit_of(e1["then"])
+            last = peel(e1["else"])
+            sel_calls = [x for x in walk(last) if x.get("k") == "MethodCall" and (callee(x) or "").endswith(SELECTORS)]
+            sel_ok = False
+            for sc in sel_calls:
+                rp = place_path(sc["recv"])
+                ap = place_path(sc["args"][0]) if sc["args"] else None
+                if rp and ap and {rp[0], ap[0]} == set(operands) and rp[2] == ["unit"] and ap[2] == ["unit"]:
+                    sel_ok = True
+            if z1 in operands and z2 in operands and z1 != z2 and r1 == z2 and r2 == z1 and sel_ok:
+                ok = True
+                why = "zero operand never determines the unit (mirror-image branches), otherwise smaller_unit(a.unit, b.unit)"
+            elif z1 in operands and z2 in operands and (r1 != z2 or r2 != z1):
+                why = "the zero branches are not mirror images (a zero operand must yield the OTHER operand's unit)"
+    if ok:
+        WRAPPED_SELECTORS.add(fn["def"] if "def" in fn else "crate::" + suffix)
+        WRAPPED_SELECTORS.add("crate::" + suffix)
+        out.ok("comparison_unit:shape", f, fn["line"], why)
+    else:
+        out.violation("comparison_unit:shape", f, fn["line"], "Quantity::comparison_unit is " + why)
 
 
 def check_selector(crate, out):
@@ -240,8 +312,28 @@ def rule_sym_cmp(crate):
         (crate.find_fn("quantity::Quantity::partial_cmp_preserve_nan"), "Quantity::partial_cmp_preserve_nan"),
     ]
     FRAMES.clear()
+    ZERO_AWARE.clear()
+    check_zero_aware_selector(crate, out)
     for fn, label in fns:
         check_binary(crate, fn, out, label)
+    # the literal 0 is polymorphic: `8 km > 0` and `0 < 8 km` type-check, so the comparison must not convert the
+    # non-zero operand into the (scalar) unit of a zero operand.  Either the target unit comes from the verified
+    # zero-aware selector, or the function has mirror-image is_zero() short-cuts before converting.
+    for fn, label in fns:
+        tests = set()
+        ops = two_operands(fn)
+        for n in walk(fn["body"]):
+            if n.get("k") == "MethodCall" and n["name"] == "is_zero":
+                lid = local_of(n["recv"])
+                if ops and lid in (ops[0]["id"], ops[1]["id"]):
+                    tests.add(lid)
+        ff = crate.file_of(fn)
+        if label in ZERO_AWARE or len(tests) == 2:
+            out.ok("%s:zero-operand" % label, ff, fn["line"], "a zero operand never determines the unit both operands are converted to")
+        elif FRAMES.get(label) == "base-unit representation":
+            out.ok("%s:zero-operand" % label, ff, fn["line"], "compared in base representation (no conversion into an operand's unit)")
+        else:
+            out.violation("%s:zero-operand" % label, ff, fn["line"], "%s converts its operands to a unit that a zero operand can determine: `8 km > 0` / `0 < 8 km` type-check (0 is polymorphic) but the non-zero operand is then converted into the scalar unit of the zero and the comparison fails at run time with an incompatible-units error" % label)
     # equality and ordering must compare in the SAME common representation: the conversion rounds, and two different
     # representations round differently, so `a < b`, `a == b`, `a > b` would no longer be mutually exclusive
     frames = {label: FRAMES.get(label) for _fn, label in fns}
